@@ -1402,7 +1402,12 @@ class ProgramData:
                     raise RuntimeError("Program output should not contain an extension")
                 program_output_name = option_value
             elif option_name == "O":
-                optimize_level = int(option_value)
+                try:
+                    optimize_level = int(option_value)
+                except ValueError as e:
+                    raise RuntimeError("Invalid optimization level " + option_value) from e
+                if optimize_level not in cls._OPTIMIZE_LEVELS:
+                    raise RuntimeError("Unknown optimization level " + option_value)
             elif option_name in ["f", "flag"]:
                 if option_name == "f":
                     set_to = True
